@@ -3,7 +3,7 @@
    json_postprocess / json_quote mirror serialize.rs, deserialize.rs, the handle registry of
    value/mod.rs, filters.rs::tojson and serde_json's string escaping); domain and JSON token
    grammar: MJ.C16.Spec. *)
-From MJ Require Import Common.Base C16.Model C16.Spec C16.Proofs.
+From MJ Require Import Common.Base C16.Model C16.Spec C16.Proofs C16.PostLaws.
 
 (* Serialising a serde value of a Rust type into a template value and deserialising it at the same
    type gives the value back: every type built from bool, integers of 8 to 128 bits, floats, char,
@@ -160,6 +160,17 @@ Example postprocess_witness :
     = [91; 34; 92; 117; 48; 48; 51; 99; 47; 92; 117; 48; 48; 50; 55; 92; 34; 34; 44; 49; 93].
 Proof. vm_compute. split; reflexivity. Qed.
 
+(* Laws of the post-processing step, for every text: it changes a text exactly when the text contains one of
+   < > & ' ; it is idempotent (the step never double-escapes what it produced); it distributes over
+   concatenation (output written in chunks equals output written at once). *)
+Theorem postprocess_laws : forall s t,
+  (json_postprocess s = s <-> (forall x, In x s -> is_html4 x = false)) /\
+  json_postprocess (json_postprocess s) = json_postprocess s /\
+  json_postprocess (s ++ t) = json_postprocess s ++ json_postprocess t.
+Proof.
+  intros s t. split; [apply post_fixed_iff|]. split; [apply post_idempotent|apply post_app].
+Qed.
+
 Print Assumptions roundtrip.
 Print Assumptions roundtrip_domain_is_tight.
 Print Assumptions handles_identity.
@@ -174,3 +185,4 @@ Print Assumptions postprocess_preserves_json.
 Print Assumptions html4_only_in_literals.
 Print Assumptions replacement_decodes.
 Print Assumptions tojson_valid_partial.
+Print Assumptions postprocess_laws.
